@@ -3,3 +3,6 @@ import Proofs.TagLen
 import Proofs.Parse
 import Proofs.Prefix
 import Proofs.Fuel
+import Proofs.TimeDigits
+import Proofs.TimeRoundtrip
+import Proofs.TimeCanon
